@@ -98,10 +98,15 @@ WATCH_EXPR = {'local': 'b + 1000', 'global': 'GV', 'failing': '1 // 0'}
 WATCH_VALUE = {'local': '1100', 'global': str(GLOBAL_VALUE)}
 
 
-def run_case(workdir, stack, tps, expire, tag):
-    """Returns (reference_frames, snapshots(list of projected dicts), problems)."""
+def run_case(workdir, stack, tps, expire, tag, flipped=False):
+    """Returns (reference_frames, snapshots(list of projected dicts), problems).
+
+    flipped: the SAME files (same tag) are seen under a second configuration whose application root is the other
+    directory - every frame's app flag and short path read the other way round."""
     from deep.api.tracepoint.trigger import LocationAction, LineLocation, Trigger, Location
     entry, app_dir, tp, expected, mods = build_host(workdir, stack, tag)
+    if flipped:
+        app_dir = os.path.join(workdir, 'lib_%s' % tag)
     rg = R.Rig(app_root=app_dir)
     problems = []
     try:
